@@ -1,6 +1,7 @@
 import OrdModel.Proofs.IndexInsnumLists
 import OrdModel.Proofs.IndexInsnumJubilee
 import OrdModel.Index.Run
+import OrdModel.Proofs.IndexLiftInsNumChain
 /-
 C05 — inscription numbers, sequence numbers and ids are dense, unique and consistent; jubilee.
 Model: `updateInscriptionLocation` (OrdModel/Index/Inscriptions.lean) ↔
@@ -12,11 +13,14 @@ next cursed number and the walk ends at the two stored counters; `num2seq`, `id2
 are mutually inverse; the Cursed charm is set exactly on negative numbers.
 
 Proved here: the invariant holds of the empty index, every call of `update_inscription_location`
-preserves it (`_partial`: the lift over `index_inscriptions` / blocks / chains, which needs the
-freshness of `(txid, k)` ids threaded through the block, is not done), and the invariant implies
-each clause of the property.  Full statement, NOT proved:
-  theorem c05 (cfg) (st) (h : Reachable cfg st) (distinct reveal txids) (< 2^31 inscriptions) :
-      Inv5 st.entries st.id2seq st.num2seq st.blessed st.cursed
+preserves it, the invariant implies each clause of the property, and — lifted through
+`index_inscriptions`, `indexTx`, the block-end flush, the rune pass and the chain induction
+(`OrdModel/Proofs/IndexLiftInsNum*.lean`) — **every reachable state of the full index model
+satisfies it** (`c05_reachable`, `c05_dense_reachable`, `c05_inverse_reachable`,
+`c05_jubilee_reachable`).  Only hypothesis on the chain: pairwise distinct txids (the ids handed
+out by a reveal are `(txid, 0), (txid, 1), …`, so a repeated reveal txid would repeat ids).  The
+`< 2^31 inscriptions` side condition is the modelled `try_into::<i32>().unwrap()` panic branch:
+it is carried by `run cfg chain = .ok …`.
 -/
 namespace Ord.Index.C05
 open Ord.Index Ord.Index.Insnum Ord.Outcome
@@ -111,6 +115,89 @@ theorem c05_jubilee_scan_partial (cfg : Cfg) (st : State) (txid : Txid) (height 
   simpa using this
 
 theorem c05_uncursed_number (st : State) : 0 ≤ numberOf st false := by simp [numberOf]
+
+/-! ## Every reachable state -/
+
+/-- **C05 on every reachable state**: after any chain with pairwise distinct txids (if indexing
+succeeds) the inscription tables satisfy the numbering invariant. -/
+theorem c05_reachable (cfg : Cfg) (chain : List Block) (st : State) (evs : List Event)
+    (hd : (Sched.chainTxids chain).Nodup) (h : run cfg chain = .ok (st, evs)) :
+    Inv5 st.entries st.id2seq st.num2seq st.blessed st.cursed :=
+  (InsLift.run_n5 cfg chain st evs hd h).inv5
+
+/-- dense and unique on reachable states: position = sequence number, `blessed + cursed = n`,
+every number is one of `0..blessed-1` or `-1..-cursed`, no two entries share a number or an id -/
+theorem c05_dense_reachable (cfg : Cfg) (chain : List Block) (st : State) (evs : List Event)
+    (hd : (Sched.chainTxids chain).Nodup) (h : run cfg chain = .ok (st, evs)) :
+    (∀ (i : Nat) (e : InsEntry), st.entries[i]? = some e → e.seq = i) ∧
+    st.blessed + st.cursed = st.entries.length ∧
+    (∀ (i : Nat) (e : InsEntry), st.entries[i]? = some e →
+      (0 ≤ e.number ∧ e.number < (st.blessed : Int)) ∨ (-(st.cursed : Int) ≤ e.number ∧ e.number < 0)) ∧
+    (∀ (i j : Nat) (ei ej : InsEntry), st.entries[i]? = some ei → st.entries[j]? = some ej → ei.number = ej.number → i = j) ∧
+    (∀ (i j : Nat) (ei ej : InsEntry), st.entries[i]? = some ei → st.entries[j]? = some ej → ei.id = ej.id → i = j) :=
+  c05_dense (c05_reachable cfg chain st evs hd h)
+
+/-- numbers are handed out in sequence order on reachable states -/
+theorem c05_numbers_in_order_reachable (cfg : Cfg) (chain : List Block) (st : State) (evs : List Event)
+    (hd : (Sched.chainTxids chain).Nodup) (h : run cfg chain = .ok (st, evs)) :
+    numberWalk (st.entries.map (·.number)) 0 0 = some (st.blessed, st.cursed) :=
+  c05_numbers_in_order (c05_reachable cfg chain st evs hd h)
+
+/-- lookups by id, by number and by sequence number are mutually inverse on reachable states -/
+theorem c05_inverse_reachable (cfg : Cfg) (chain : List Block) (st : State) (evs : List Event)
+    (hd : (Sched.chainTxids chain).Nodup) (h : run cfg chain = .ok (st, evs)) :
+    (∀ (i : Nat) (e : InsEntry), st.entries[i]? = some e →
+      AL.get st.num2seq e.number = some i ∧ AL.get st.id2seq e.id = some i) ∧
+    (∀ (n : Int) (s : Nat), AL.get st.num2seq n = some s → ∃ e : InsEntry, st.entries[s]? = some e ∧ e.number = n) ∧
+    (∀ (id : InscriptionId) (s : Nat), AL.get st.id2seq id = some s → ∃ e : InsEntry, st.entries[s]? = some e ∧ e.id = id) :=
+  c05_inverse (c05_reachable cfg chain st evs hd h)
+
+/-- cursed ⇔ negative, and the jubilee, on reachable states: the Cursed charm is set exactly on
+the negatively numbered entries, and every entry created at or above the jubilee height (its
+stored `height`) has a non-negative number. -/
+theorem c05_jubilee_reachable (cfg : Cfg) (chain : List Block) (st : State) (evs : List Event)
+    (hd : (Sched.chainTxids chain).Nodup) (h : run cfg chain = .ok (st, evs)) :
+    (∀ (i : Nat) (e : InsEntry), st.entries[i]? = some e → hasCharm e.charms charmCursed = decide (e.number < 0)) ∧
+    (∀ e ∈ st.entries, cfg.jubileeHeight ≤ e.height → 0 ≤ e.number) := by
+  have n := InsLift.run_n5 cfg chain st evs hd h
+  refine ⟨n.inv5.charm, ?_⟩
+  intro e he hge
+  apply Classical.byContradiction
+  intro hneg
+  have := n.jinv e he (by omega)
+  omega
+
+/-- every inscription id of a reachable state carries the txid of a transaction of the chain -/
+theorem c05_ids_reachable (cfg : Cfg) (chain : List Block) (st : State) (evs : List Event)
+    (hd : (Sched.chainTxids chain).Nodup) (h : run cfg chain = .ok (st, evs)) :
+    ∀ e ∈ st.entries, e.id.txid ∈ Sched.chainTxids chain := by
+  intro e he
+  exact (InsLift.run_n5 cfg chain st evs hd h).prov e.id (List.mem_map_of_mem he)
+
+/-! non-vacuity of the lift: a pushnum (cursed) envelope revealed below the jubilee height gets
+number −1, the same kind of envelope revealed at the jubilee height is vindicated and gets 0 -/
+
+def ncCfg : Cfg :=
+  { indexSats := false, indexAddresses := false, indexTransactions := false, indexInscriptions := true, indexRunes := false, firstInscriptionHeight := 0, jubileeHeight := 2, firstRuneHeight := 0 }
+def ncCbIn : TxIn := { prev := OutPoint.null, taproot := false, confHeight := none, pushes := [] }
+def ncOut : TxOut := { value := 5000000000, opReturn := false, script := [] }
+def ncCb (txid : Txid) : Tx := { txid := txid, inputs := [ncCbIn], outputs := [ncOut], envelopes := [], artifact := none, size := 0 }
+def ncEnv : Envelope :=
+  { input := 0, offset := 0, unrecognizedEven := false, duplicateField := false, incompleteField := false, pushnum := true, stutter := false, hidden := false, gallery := false, pointerField := false, pointer := none, parents := [] }
+def ncReveal (txid : Txid) (prev : OutPoint) : Tx :=
+  { txid := txid, inputs := [{ prev := prev, taproot := true, confHeight := some 0, pushes := [] }], outputs := [ncOut], envelopes := [ncEnv], artifact := none, size := 0 }
+def ncB0 : Block := { height := 0, time := 0, hash := 100, minimumRune := 0, txs := [ncCb 1] }
+def ncB1 : Block := { height := 1, time := 0, hash := 101, minimumRune := 0, txs := [ncCb 2, ncReveal 3 ⟨1, 0⟩] }
+def ncB2 : Block := { height := 2, time := 0, hash := 102, minimumRune := 0, txs := [ncCb 4, ncReveal 5 ⟨2, 0⟩] }
+
+def ncNumbers (r : Outcome (State × List Event)) : Option (List (Int × Nat)) :=
+  match r with
+  | .ok (st, _) => some (st.entries.map (fun e => (e.number, e.height)))
+  | _ => none
+
+example : (Sched.chainTxids [ncB0, ncB1, ncB2]).Nodup ∧
+    ncNumbers (run ncCfg [ncB0, ncB1, ncB2]) = some [(-1, 1), (0, 2)] := by
+  refine ⟨by decide, by decide⟩
 
 /-! non-vacuity: the invariant is satisfiable on a two-entry table -/
 example : Inv5 [⟨0, 0, 1, false, ⟨7, 0⟩, 0, [], none, 0, 0⟩, ⟨2, 0, 1, false, ⟨7, 1⟩, -1, [], none, 1, 0⟩]
